@@ -6,7 +6,13 @@ case = {"term": "kitty"|"konsole"|"other", "ksup": bool, "size": [cols, rows], "
 spec = {"kind": "kitty"|"iterm2"|"block", "img": int, "upscale": bool,
         "cls": 0 (UrwidImage) | 1 (a subclass) | 2 (a subclass of that subclass) | 3 (another subclass)}
 step = {"op": "draw", "layout": L} | {"op": "redraw"} | {"op": "draw_bad", "layout": L}
-     | {"op": "clear"} | {"op": "stop"} | {"op": "start"}
+     | {"op": "clear"} | {"op": "stop"}
+     | {"op": "start", "alt": bool}       screen.start(alternate_buffer=alt) (default True); without the
+                                          alternate buffer (urwid's inline mode) every canvas drawn carries a
+                                          cursor at (0, 0): urwid's relative row addressing relies on it
+     | {"op": "pre", "items": [P, ...]}   output of something else on the terminal while the screen is stopped
+                                          (returned as the step's "out"; the screen is not involved)
+     | {"op": "newscreen"}                the (stopped) screen object is replaced by a new UrwidImageScreen
      | {"op": "new", "slot": name, "spec": spec} | {"op": "del", "slot": name}
      | {"op": "api", "slots": [name, ...], "now": bool}     the PUBLIC screen.clear_images(*widgets, now=now);
                                                             no slots = all images
@@ -16,6 +22,11 @@ L    = ["img", slot] | ["text", str] | ["fill", ch] | ["divider"]
      | ["overlay", top, bottom, align, width, valign, height, left, top_off]
      | ["listbox", [L, ...], focus, percent]
      | ["linebox", L] | ["filler", L, valign] | ["padding", L, left, right] | ["boxadapter", L, h]
+
+P    = ["raw", row, col, w, h, z]          a kitty placement put at an absolute position
+     | ["image", kind, img, width, spec]   format(KittyImage | ITerm2Image (img, width=width), spec), printed at the
+                                           cursor as print() does through a tty (LF -> CR LF)
+     | ["text", str] | ["alt", bool]       plain text / CSI ? 1049 h|l (another full-screen program)
 
 Per step the result holds: the text written to the screen's buffer, the canvas' layout
 (bands of cells obtained with urwid's OWN shard_body / shard_body_tail), _ti_image_cviews,
@@ -46,6 +57,26 @@ _urwid_mod.write_tty = TTY.write
 
 urwid.set_encoding("utf-8")
 tests.set_cell_size((2, 4))
+
+
+class WithCursor(urwid.WidgetDecoration):
+    """the top widget of an inline (no alternate buffer) session: its canvas carries a cursor at
+    (0, 0).  urwid's partial-display mode addresses rows relative to the row it believes the
+    cursor is on (Screen._cy), which it only learns from the canvas' cursor"""
+
+    def selectable(self):
+        return False
+
+    def sizing(self):
+        return self._original_widget.sizing()
+
+    def rows(self, size, focus=False):
+        return self._original_widget.rows(size, focus)
+
+    def render(self, size, focus=False):
+        canv = urwid.CompositeCanvas(self._original_widget.render(size, focus))
+        canv.cursor = (0, 0)
+        return canv
 
 
 def make_image(i):
@@ -94,6 +125,26 @@ class Case:
         self.canv_count = 0
         self.last_canvas = None
         self.known_live = {}   # serial -> z   as of the last step
+        self.inline = False    # the current session was started without the alternate buffer
+
+    def pre_output(self, items):
+        """what another program (an earlier command, the application itself) writes to the terminal"""
+        out = []
+        for it in items:
+            if it[0] == "raw":
+                _, row, col, w, h, z = it
+                out.append(f"\x1b[{row + 1};{col + 1}H\x1b_Ga=T,f=24,s=1,v=1,c={w},r={h},z={z},C=1;AAAA\x1b\\")
+            elif it[0] == "image":
+                _, kind, img, width, spec = it
+                cls = {"kitty": KittyImage, "iterm2": ITerm2Image}[kind]
+                out.append(format(cls(make_image(img), width=width), spec).replace("\n", "\r\n") + "\r\n")
+            elif it[0] == "text":
+                out.append(it[1].replace("\n", "\r\n"))
+            elif it[0] == "alt":
+                out.append("\x1b[?1049h" if it[1] else "\x1b[?1049l")
+            else:
+                raise ValueError(f"unknown pre-output item {it!r}")
+        return "".join(out)
 
     # ---------------------------------------------------------------- widgets
     def new_widget(self, spec):
@@ -226,7 +277,21 @@ class Case:
         res = {"op": op}
         try:
             if op == "start":
-                self.screen.start()
+                alt = bool(st.get("alt", True))
+                self.screen.start(alternate_buffer=alt)
+                if self.inline != (not alt):
+                    self.last_canvas = None   # rendered for the other mode (with / without the cursor)
+                self.inline = not alt
+            elif op == "pre":
+                if self.screen._started:
+                    raise ValueError("pre-output while the screen is started")
+                res["pre"] = self.pre_output(st.get("items", []))
+            elif op == "newscreen":
+                if self.screen._started:
+                    raise ValueError("new screen object while the old one is started")
+                self.take_output()
+                self.screen = UrwidImageScreen(sys.__stdin__, self.buf)
+                self.last_canvas = None
             elif op == "stop":
                 self.screen.stop()
             elif op == "clear":
@@ -260,8 +325,12 @@ class Case:
             elif op in ("draw", "draw_bad", "redraw"):
                 if op == "redraw":
                     canv = self.last_canvas
+                    if canv is None:
+                        raise ValueError("redraw without a canvas drawn in this mode")
                 else:
                     widget = self.build(st["layout"])
+                    if self.inline:
+                        widget = WithCursor(widget)
                     canv = widget.render(self.size)
                     del widget
                 self.last_canvas = canv
@@ -282,7 +351,7 @@ class Case:
         except Exception as e:
             import traceback
             res["abort"] = type(e).__name__ + ": " + str(e)[:200] + " | " + traceback.format_exc()[-600:]
-        res["out"] = self.take_output()
+        res["out"] = res.pop("pre", "") + self.take_output()
         res["tty"] = TTY.getvalue().decode("utf-8", "replace")
         TTY.seek(0)
         TTY.truncate()
